@@ -5,3 +5,5 @@ import OlVerif.Props.C09
 #print axioms OlVerif.C09.loop_helpers_reserved
 #print axioms OlVerif.C09.helper_names_distinct
 #print axioms OlVerif.C09.helper_names_prefixed
+#print axioms OlVerif.C09.no_foreign_binders
+#print axioms OlVerif.C09.transformer_adds_no_binder
